@@ -169,6 +169,10 @@ type Knobs struct {
 	SetEchoIDBase   bool   `json:"setEchoIDBase,omitempty"`
 	RandSeed        int64  `json:"randSeed,omitempty"`
 	FrameNoise      int    `json:"frameNoise,omitempty"` // frames synthesised around each installed filter's configuration (C12)
+	// free-running mode only: 1-based ordinals of the NewSourceSink calls that fail (each with its own
+	// sentinel); FreeFailAll fails every construction
+	FreeFailNew []int `json:"freeFailNew,omitempty"`
+	FreeFailAll bool  `json:"freeFailAll,omitempty"`
 	FreshCache      bool   `json:"freshCache,omitempty"` // false keeps the cache of the previous call in the same scenario only
 }
 
